@@ -378,6 +378,26 @@ func e2emOnce(items []leafItem, timeout time.Duration) (out string) {
 
 	ctx, cancel := context.WithTimeout(context.Background(), timeout)
 	defer cancel()
+	if prev := pendingPrev; prev != nil {
+		// an earlier Set on the same leaves: what is read back below must be the values of the Set under
+		// test, whatever the stores held before (same bytes with other type options included)
+		pendingPrev = nil
+		preq := &pb.SetRequest{}
+		for i, it := range prev {
+			if i < len(items) {
+				preq.Update = append(preq.Update, &pb.Update{Path: multiPath(target, i), Val: gvalToPb(it.g)})
+			}
+		}
+		if _, err := e.server.Set(ctx, preq); err != nil {
+			if ctx.Err() != nil {
+				return "wedged"
+			}
+			return "err earlier-set-refused:" + strings.TrimPrefix(errClass(err), "err ")
+		}
+		e.plugin.mu.Lock()
+		e.plugin.lastDoc = nil
+		e.plugin.mu.Unlock()
+	}
 	resp, err := e.server.Set(ctx, req)
 	if err != nil {
 		if ctx.Err() != nil {
